@@ -225,3 +225,58 @@ func parseValues(out string) (map[string]string, []string) {
 	}
 	return vals, ord
 }
+
+// Quick runs a single fast solver first (for the many small Houdini queries), then the others on demand.
+func (p *Portfolio) Quick(script string, timeoutS float64) *SolveResult {
+	h := sha256.Sum256([]byte(script))
+	hs := hex.EncodeToString(h[:8])
+	p.mu.Lock()
+	if r, ok := p.cache[hs]; ok && (r.Status == "sat" || r.Status == "unsat") {
+		p.mu.Unlock()
+		return r
+	}
+	p.seq++
+	file := filepath.Join(p.Dir, fmt.Sprintf("h%d_%s.smt2", p.seq, hs))
+	p.mu.Unlock()
+	if err := os.WriteFile(file, []byte(script), 0o644); err != nil {
+		return &SolveResult{Status: "error"}
+	}
+	defer os.Remove(file)
+	type ans struct {
+		name, first string
+		dt          float64
+	}
+	ctx, cancel := context.WithTimeout(context.Background(), time.Duration((timeoutS+1)*float64(time.Second)))
+	defer cancel()
+	ch := make(chan ans, 2)
+	n := 0
+	for _, s := range Solvers {
+		if s.Name != "cvc5" && s.Name != "z3-new" {
+			continue
+		}
+		n++
+		s := s
+		go func() {
+			args := s.Args(file, timeoutS)
+			t0 := time.Now()
+			out, _ := exec.CommandContext(ctx, args[0], args[1:]...).CombinedOutput()
+			ch <- ans{s.Name, strings.TrimSpace(strings.SplitN(string(out), "\n", 2)[0]), time.Since(t0).Seconds()}
+		}()
+	}
+	for i := 0; i < n; i++ {
+		a := <-ch
+		p.mu.Lock()
+		p.Total[a.name] += a.dt
+		p.mu.Unlock()
+		if a.first == "sat" || a.first == "unsat" {
+			cancel()
+			r := &SolveResult{Status: a.first, Solver: a.name, TimeS: a.dt, Hash: hs}
+			p.mu.Lock()
+			p.Queries++
+			p.cache[hs] = r
+			p.mu.Unlock()
+			return r
+		}
+	}
+	return &SolveResult{Status: "unknown", Hash: hs}
+}
